@@ -25,7 +25,8 @@ RULE = (
     "precedence orders x parenthesize x operator spelling over single-atom detections. Oracle: each "
     "emitted query is decoded with the configuration's own precedence/quoting rules and compared by "
     "truth table (all assignments of the atomic predicates; sampled beyond 14 atoms) with the "
-    "reference formula of the source document. Non-trivial = >= 2 distinct atoms and >= 1 boolean "
+    "reference formula of the source document. A fourth generator draws LARGE cases (strings up to 70 "
+    "characters, value lists up to 40, up to 11 detections, conditions with up to 20 leaves). Non-trivial = >= 2 distinct atoms and >= 1 boolean "
     "operator."
 )
 ASSUMPTIONS = [
@@ -213,9 +214,13 @@ def check_case(case: dict) -> Outcome:
 # ---- generators ---------------------------------------------------------------------------------
 
 @st.composite
-def cases(draw, not_eq=None):
+def cases(draw, not_eq=None, big=False):
     cfg = draw(gen.cfgs(not_eq=not_eq))
-    doc = draw(gen.rule_docs(cfg))
+    gen.BIG[0] = big
+    try:
+        doc = draw(gen.rule_docs(cfg))
+    finally:
+        gen.BIG[0] = False
     return {"cfg": cfg, "doc": doc}
 
 
@@ -288,3 +293,4 @@ def run(ctx) -> None:
     ctx.hyp(cases(not_eq=False), n, salt=1)
     ctx.hyp(cases(not_eq=True), n // 3, salt=2)
     ctx.hyp(noteq_supported_cases(), n // 3, salt=3)
+    ctx.hyp(cases(not_eq=False, big=True), max(40, n // 12), salt=4)  # long strings / value lists, many detections
